@@ -621,18 +621,10 @@ def history_items(run, rng, hists, base_calls, per_sig, want_len, maxpos):
       after = pick(rng, flip, 14) + pick(rng, dflt, 6) + pick(rng, other, 3)
       if not after:
         after = [{"npos": 0, "kws": []}]
-      # the re-assignments are spread over the calls: the first after `before`, later ones further on
-      calls = before + after
-      redefs = []
-      for j, r in enumerate(h["redefs"]):
-        at = len(before) if j == 0 else min(len(calls) - 1, len(before) + j * max(1, len(after) // want_len))
-        redefs.append({"at": at, "attr": r["attr"], "pdef": r["pdef"], "kdef": sorted(r["kdef"])})
-      if want_len > 1:
-        # every stage sees the sensitive calls again
-        calls = before + after * want_len
-        step = len(after)
-        for j, r in enumerate(redefs):
-          r["at"] = len(before) + j * step
+      # define, before, re-assignment 1, after, re-assignment 2, after (again), ...
+      calls = before + after * want_len
+      redefs = [{"at": len(before) + j * len(after), "attr": r["attr"], "pdef": r["pdef"],
+                 "kdef": sorted(r["kdef"])} for j, r in enumerate(h["redefs"])]
       items.append((sig, kind, calls, maxpos, redefs))
   run.add("hist_modules", len(items))
   return items
@@ -667,7 +659,7 @@ def main():
   rem = run.seed % mod
   # 1. TLC: the design (all pairs of the bounds) and the export of the signatures, side by side
   # with nothing else (the replay needs the export first).
-  with cf.ThreadPoolExecutor(max_workers=3) as ex:
+  with cf.ThreadPoolExecutor(max_workers=6) as ex:
     jm = ex.submit(tlc.run, "ArgBind", model_cfg(n, maxpos, maxkw, True), workers=6 if thorough else 4,
                    timeout=3000, seed=run.seed)
     je = ex.submit(tlc.run, "ArgBind", model_cfg(n, maxpos, maxkw, True, mod, rem, export=True),
@@ -675,6 +667,13 @@ def main():
     jm3 = None
     if thorough:
       jm3 = ex.submit(tlc.run, "ArgBind", model_cfg(3, 5, 3, False), workers=6, timeout=6000, seed=run.seed)
+    # histories: the machine with Return / SetDefaults (quick: one re-assignment per behaviour,
+    # thorough: two) and the export of (definition, history, sensitive call shapes)
+    hn, hpos, hkw, hred = 2, 3, 2, (2 if thorough else 1)
+    jh = ex.submit(tlc.run, "ArgBind", model_cfg(hn, hpos, hkw, False, maxredef=hred),
+                   workers=6 if thorough else 3, timeout=6000, seed=run.seed)
+    jhe = ex.submit(tlc.run, "ArgBind", model_cfg(hn, hpos, hkw, True, mod, rem, export="hists", maxredef=1),
+                    workers=1, timeout=3000, seed=run.seed, heap="4g")
     r = je.result()
     common.require(r.ok and not r.violated, "ArgBind export failed:\n" + r.out[-2000:])
     run.add("tlc_export_wall_s", round(r.wall, 1))
@@ -707,10 +706,27 @@ def main():
       common.require(len(big) >= 80, "only %d signatures with 3 parameters of a kind exported" % len(big))
       for sig, calls in big:
         items.append((sig, "function", pick(rng, calls, 120), 5))
+    # histories: define, call*, re-assign the defaults, call* on a seeded choice of histories of
+    # every exported definition (thorough: more per definition, and two re-assignments for the
+    # seeded class SigIndex % 8)
+    rh = jhe.result()
+    common.require(rh.ok and not rh.violated, "ArgBind history export failed:\n" + rh.out[-2000:])
+    run.add("tlc_export_wall_s", round(rh.wall, 1))
+    run.put("histories_exported", len(rh.cases))
+    base_calls = {sig_text(sg): cs for sg, cs in sigs}
+    hitems = history_items(run, rng, rh.cases, base_calls, (2, 1, 1) if thorough else (1, 1, 1), 1, maxpos)
+    if thorough:
+      r2 = tlc.run("ArgBind", model_cfg(hn, hpos, hkw, True, 8, run.seed % 8, export="hists", maxredef=2),
+                   workers=1, timeout=3000, seed=run.seed, heap="6g")
+      common.require(r2.ok and not r2.violated, "ArgBind history export (2) failed:\n" + r2.out[-2000:])
+      run.add("tlc_export_wall_s", round(r2.wall, 1))
+      hitems += history_items(run, rng, r2.cases, base_calls, (2, 1, 1), 2, maxpos)
+    common.require(len(hitems) >= (1500 if thorough else 150), "only %d history modules" % len(hitems))
+    items += hitems
     # biggest modules first (better packing of the pool)
     items.sort(key=lambda it: -len(it[2]))
     ncalls = judge(run, items, procs=8)
-    for job, label in ((jm, "n2"), (jm3, "n3")):
+    for job, label in ((jm, "n2"), (jm3, "n3"), (jh, "hist")):
       if job is None:
         continue
       r = job.result()
@@ -721,7 +737,9 @@ def main():
       run.put("model_states_" + label, r.distinct)
       run.add("tlc_model_wall_s", round(r.wall, 1))
   run.put("model_bounds", {"N": n, "MaxPos": maxpos, "MaxKw": maxkw, "Foreign": FOREIGN, "StarNames": True,
-                           "second_model": {"N": 3, "MaxPos": 5, "MaxKw": 3, "StarNames": False} if thorough else None})
+                           "second_model": {"N": 3, "MaxPos": 5, "MaxKw": 3, "StarNames": False} if thorough else None,
+                           "history_model": {"N": hn, "MaxPos": hpos, "MaxKw": hkw, "StarNames": False,
+                                             "MaxRedef": hred}})
   run.put("exhaustive", bool(thorough))
   run.put("traces_validated_against_impl", ncalls)
   run.put("evaluations", ncalls)
@@ -740,11 +758,30 @@ def main():
                    "vacuity: too few calls rendered as " + kind)
   common.require(cv.get("bound_with_varargs_items", 0) >= 200 and cv.get("bound_with_kwargs_items", 0) >= 200,
                  "vacuity: too few bound calls that fill *va / **kw")
+  # histories: calls judged after a re-assignment whose outcome the re-assignment decides
+  for eff, least in (("lost", 150), ("gained", 150), ("newdef", 150)):
+    common.require(cv.get("hist_" + eff, 0) >= least, "vacuity: only %d calls after a re-assignment of the "
+                   "defaults with effect %r" % (cv.get("hist_" + eff, 0), eff))
+  for kind in HKINDS:
+    common.require(cv.get("hist_lost_" + kind, 0) >= 10 and cv.get("hist_gained_" + kind, 0) >= 10,
+                   "vacuity: too few decisive calls after a re-assignment on a " + kind)
+  for attr in ("pos", "kw"):
+    common.require(cv.get("hist_lost_" + attr, 0) >= 40 and cv.get("hist_gained_" + attr, 0) >= 40,
+                   "vacuity: too few decisive calls after a re-assignment of " + attr + " defaults")
+  common.require(cv.get("hist_calls_stage0", 0) >= 100, "vacuity: too few calls before the re-assignment")
+  if thorough:
+    common.require(cv.get("hist_calls_stage2", 0) >= 500, "vacuity: too few calls after a second re-assignment")
   run.assumptions += [
       "signatures: parameters without annotations; defaults are instances of marker classes; calls pass "
       "plain positional and keyword actuals (no *iterable / **mapping at the call site)",
       "callables: module-level function, method on an instance, classmethod and staticmethod through the "
       "class, constructor through __init__; decorators, overloads, __new__ and __call__ are not covered",
+      "histories: the defaults are re-assigned at module level between the calls with a tuple display "
+      "(<f>.__defaults__ = (D1_b1(), ..), at most as many values as positional parameters) or a dict display "
+      "(<f>.__kwdefaults__ = {'k1': D1_k1()}) on a function, a lambda, C.m (called as o.m), C.sm (staticmethod) "
+      "and C.__init__; not covered: classmethods (C.cm is a bound method: no attribute assignment), "
+      "__defaults__ = None, non-literal tuples, re-assignment inside functions or branches; quick: one "
+      "re-assignment per module, thorough: also two",
       "the error class pytype chooses is informational (DIV); the property judges error-iff-TypeError on the "
       "call line and the revealed parameter types",
       "pytype runs with --no-skip-calls (skip_repeat_calls=False) so that every call executes the callee's "
